@@ -378,7 +378,34 @@ def macro_arm_fn(it, src, file, arm):
     st = src.rfind("\n", 0, ct[f][1]) + 1
     if src[st:ct[f][1]].strip() != "":
         st = ct[f][1]
-    return Item(file, src, st, ct[fclose][2], ct[h][1], "fn", f"{it.name}!arm{arm}")
+    item = Item(file, src, st, ct[fclose][2], ct[h][1], "fn", f"{it.name}!arm{arm}")
+    # the arm's matcher `( $a:ident, $b:ident )`: meta-variable names in order
+    mopen = None
+    hh = j + 1
+    k = 0
+    while hh < close:
+        if ct[hh][0] == "punct" and src[ct[hh][1]] in "([{":
+            mc = match_brace(src, ct, hh)
+            k += 1
+            if k == 2 * arm - 1:
+                mopen = (hh, mc)
+                break
+            hh = mc + 1
+            continue
+        hh += 1
+    item.matcher_vars = re.findall(r"\$(\w+)\s*:", src[ct[mopen[0]][1]:ct[mopen[1]][2]]) if mopen else []
+    item.macro_name = it.name
+    item.macro_end = it.end
+    return item
+
+
+def macro_call_args(src, name, first_arg, after):
+    """arguments of the invocation `name!(first_arg, ...)` found after offset `after` (the real instantiation)."""
+    for m in re.finditer(re.escape(name) + r"!\s*\(([^()]*)\)", src[after:]):
+        args = [a.strip() for a in m.group(1).split(",") if a.strip()]
+        if args and args[0] == first_arg:
+            return args
+    return None
 
 
 def extract(repo, file, kind, name, impl=None, nth=1, arm=None):
@@ -756,8 +783,18 @@ def build_unit(template_path, repo, verif_root, probe=False):
                     out.append(f"    // macro {kv[kind]} arm {kv['arm']} forwards: {norm(af.body)}")
                     log.append(f"macro {kv[kind]} arm {kv['arm']}: forwarding arm `{norm(af.body)}` (no fn; block skipped)")
                     continue
+                auto_dirs = []
                 if kind == "macro" and "arm" in kv:
                     kind = "fn"
+                    if "call" in kv:
+                        # bind the arm's meta-variables from the REAL invocation `name!(call, ...)` in the same file
+                        src_all = open(os.path.join(repo, kv["file"]), encoding="utf-8").read()
+                        args = macro_call_args(src_all, it.macro_name, kv["call"], it.macro_end)
+                        if args is None or len(args) != len(it.matcher_vars):
+                            raise AnchorLost(f"no invocation {it.macro_name}!({kv['call']}, ..) matching arm {kv['arm']} in {kv['file']}")
+                        for var, arg in zip(it.matcher_vars, args):
+                            auto_dirs.append({"op": "subst", "rx": r"\$" + var + r"\b", "repl": arg, "n": "all", "text": "", "optional": True})
+                        log.append(f"macro {it.macro_name} arm {kv['arm']}: instantiated from the invocation {it.macro_name}!({', '.join(args)})")
                 dirs = []
                 i += 1
                 cur = None
@@ -814,6 +851,7 @@ def build_unit(template_path, repo, verif_root, probe=False):
                     raise ValueError(f"missing //@end in {path}")
                 for d in dirs:
                     d["text"] = d["text"].rstrip("\n")
+                dirs = auto_dirs + dirs
                 if kind == "fn" and (dirs or it.body_open is not None):
                     txt = splice_fn(it, dirs, log, probe) if it.body_open is not None else it.text
                 elif dirs:
